@@ -341,7 +341,16 @@ def tie_family(gen, rng, same_name=False):
         return Sum(base if rng.random() < 0.6 else plain(), frozenset(Variable(n) for n in rs))
     def frac():
         return Fraction(base if rng.random() < 0.6 else plain(), gen.atom())
-    makers = rng.choice([[plain], [popn], [summed], [frac], [plain, popn, summed], [popn, summed], [plain, summed, frac]])
+    def marked():
+        # factors that differ only in the value mark of a counterfactual variable: same key, same to_text
+        n3 = rng.choice(others)
+        w = Variable(n3)
+        pa = [x for x in others if x != n3][:1]
+        mk = rng.choice([lambda v: v, lambda v: +v, lambda v: -v])
+        ch = [Variable(first) @ +w]
+        par = [mk(Variable(pa[0])) @ +w] if pa else []
+        return P(*(ch[:-1] + [ch[-1] | par if par else ch[-1]]))
+    makers = rng.choice([[plain], [popn], [summed], [frac], [plain, popn, summed], [popn, summed], [plain, summed, frac], [marked], [marked, plain]])
     parts = []
     for _ in range(rng.randint(2, 4)):
         try:
